@@ -166,6 +166,7 @@ func (r *Router) handleHTTPRequest(ctx *Context) {
 	// matching route
 	route, params, allowed := r.QuickMatch(ctx.Req.Method, path)
 
+	var mainHandler HandlerFunc
 	var handlers HandlersChain
 	if route != nil { // found route
 		// save route params
@@ -173,8 +174,9 @@ func (r *Router) handleHTTPRequest(ctx *Context) {
 		ctx.Set(CTXCurrentRouteName, route.name)
 		ctx.Set(CTXCurrentRoutePath, path)
 
-		// append main handler to last
-		handlers = append(route.handlers, route.handler)
+		// main handler will append to last
+		handlers = route.handlers
+		mainHandler = route.handler
 	} else if len(allowed) > 0 { // method not allowed
 		// add allowed methods to context
 		ctx.Set(CTXAllowedMethods, allowed)
@@ -191,12 +193,17 @@ func (r *Router) handleHTTPRequest(ctx *Context) {
 		}
 	}
 
-	// has global middleware handlers
-	if len(r.handlers) > 0 {
-		handlers = append(r.handlers, handlers...)
+	// build the handlers chain of the request: global -> group,route -> main handler.
+	// Notice: must use a new slice. the router and route handlers are shared by all requests,
+	// append() on them may write into the free capacity of their arrays.
+	chain := make(HandlersChain, 0, len(r.handlers)+len(handlers)+1)
+	chain = append(chain, r.handlers...)
+	chain = append(chain, handlers...)
+	if mainHandler != nil {
+		chain = append(chain, mainHandler)
 	}
 
-	ctx.SetHandlers(handlers)
+	ctx.SetHandlers(chain)
 	ctx.Next() // handle processing
 
 	// has errors and has error handler
